@@ -5,6 +5,11 @@ import os
 VERIF = os.path.dirname(os.path.dirname(os.path.abspath(__file__)))
 
 CHECKS = {
+    'C01': dict(
+        category='exploration', design_ref='DESIGN.md 4/C01',
+        technique='bounded-exhaustive enumeration of all built-in value trees <= N nodes over an adversarial leaf alphabet x all widths 1..L+3 x ribbons x indents x key sorting, each output evaluated and compared by typed structural equality; deep-chain families enumerated completely',
+        text='Every value tree up to the node bound is printed by the real pformat at every width from 1 to its one-line length + 3 (plus 79 and 200), with every ribbon <= width for small trees, indents and both key orders; each output is parsed, evaluated and compared with typed equality (float bit patterns, bool vs int, dict order). Deterministic deep-chain families (every wrapper recipe of length <= 2 to depth 25 around every leaf) replace the random larger values of the quantifier. The known counter-examples sit at width 1 or ~20 levels deep, which only exhaustive sweeps of the width axis and the scaled families reach.',
+        note='trusted: CPython ast/eval, typed_eq in mc/oracles.py; bound: trees <= 3 nodes complete + a seed-rotated slice of 4 nodes (quick), <= 4 nodes complete + 5 nodes over a reduced leaf set (thorough); values outside the alphabets are not covered'),
     'C04': dict(
         category='model_checking', design_ref='DESIGN.md 4/C04',
         technique='explicit enumeration of all document terms <= K nodes x all (width, ribbon) pairs x both strategies on the real engine; membership of each observed SDoc stream in the fully enumerated layout set of the reference semantics',
